@@ -383,6 +383,12 @@ def main(argv):
             a, o = sc_args(mc=3, run=run)
             lines = [b"abc" + b"x" * (run + d) + b"def" for d in (-1, 0, 1)] + [b"abc" + b" " * (run + 2) + b"defghi"] + [b"ab" + "é".encode() * (run + dd) + b"cd" for dd in (-1, 0)]
             sc_cases.append((a, o, join(lines), "character-run-threshold"))
+        # safety boundary: an otherwise acceptable line with exactly one C0 control / DEL / ill-formed sequence in it
+        a, o = sc_args(mc=3, mci="1.0")
+        bad_bits = [bytes([x]) for x in range(0, 32) if x != 10] + [b"\x7f", b"\xc3", b"\xa9", b"\xed\xa0\x80", b"\xc0\xaf", b"\xf4\x90\x80\x80", b"\xe2\x82", b"\xf0\x9f\x98"]
+        sc_cases.append((a, o, join([b"hello " + x + b" world" for x in bad_bits] + [b"hello" + x + b"world" for x in bad_bits] + [x + b"hello world" for x in bad_bits]), "safety-boundary"))
+        a, o = sc_args(mc=3, mci="1.0", delim=b",")
+        sc_cases.append((a, o, join([b"hello" + x + b"world,abc" for x in bad_bits]), "safety-boundary"))
         words = ["hello", "world", "the", "quick", "brown", "fox", "jumps", "over", "lazy", "dog", "żółw", "naïve", "Привет", "мир", "123", "4.5", "...", "!?", "€", "😀"]
         for r in range(reps):
             mc = rng.choice([1, 3, 10, 30])
@@ -443,6 +449,30 @@ def main(argv):
             if kind.startswith("random") and rng.random() < 0.3:
                 split_check("simple_cleaning", a, data, "simple_cleaning")
         c.sample({"tool": "simple_cleaning", "args": sc_cases[-1][0], "stdin": repr(sc_cases[-1][2][:100])})
+        # -p mode (FilterParallel with 4 files): a pair is kept iff BOTH lines are kept by the single-stream tool
+        # (metamorphic on the implementation: per-line decisions cannot depend on the other file)
+        for r in range(max(6, reps // 10)):
+            a, o = sc_args(mc=rng.choice([1, 3]), run=5, mci="1.0")
+            n = rng.randrange(1, 12)
+            l0 = [" ".join(rng.choice(words) for _ in range(rng.randrange(1, 5))).encode() if rng.random() < 0.8 else gen_line(rng, 4).replace(b"\t", b"") for _ in range(n)]
+            l1 = [" ".join(rng.choice(words) for _ in range(rng.randrange(1, 5))).encode() if rng.random() < 0.8 else gen_line(rng, 4).replace(b"\t", b"") for _ in range(n)]
+            d0, d1 = join(l0), join(l1)
+            paths = [R.file("p_in0", d0), R.file("p_in1", d1), os.path.join(tmp, "p_out0"), os.path.join(tmp, "p_out1")]
+            st, _, err = R.run("simple_cleaning", a + ["-p"] + paths, b"")
+            s0, k0, _ = R.run("simple_cleaning", a, d0)
+            s1, k1, _ = R.run("simple_cleaning", a, d1)
+            c.count(("sc-p", d0, d1), bucket="simple_cleaning/parallel-4-files")
+            if st != 0 or s0 != 0 or s1 != 0:
+                c.violation("simple_cleaning-exit: -p status %s/%s/%s" % (st, s0, s1), {"tool": "simple_cleaning -p", "in0_hex": d0.hex(), "in1_hex": d1.hex(), "args": a})
+                continue
+            kept0, kept1 = set(k0.split(b"\n")[:-1]), set(k1.split(b"\n")[:-1])
+            r0, r1 = py_records(d0), py_records(d1)
+            want = [(x, y) for x, y in zip(r0, r1) if x in kept0 and y in kept1]
+            o0, o1 = open(paths[2], "rb").read(), open(paths[3], "rb").read()
+            if o0 != join([x for x, _ in want]) or o1 != join([y for _, y in want]):
+                c.violation("context-dependence: simple_cleaning -p does not keep exactly the pairs whose two lines the single-stream tool keeps",
+                            {"tool": "simple_cleaning -p", "args": a, "in0_hex": d0.hex(), "in1_hex": d1.hex(), "out0_hex": o0.hex(), "out1_hex": o1.hex(),
+                             "how": "bin/simple_cleaning ARGS -p in0 in1 out0 out1  vs  bin/simple_cleaning ARGS < in0 and < in1"})
         if drv is not None:
             # ICU classes for every code point that occurs, from the real ICU
             cps = set()
